@@ -315,3 +315,22 @@ func VHC16Fresh() {
 	vh.Assert(k1 == OK && k2 == OK, "C16: the calls succeed: "+c.call)
 	vh.Assert(o1 == o2, "C16: a repeated call is not affected by writes into the earlier result, and the receiver is unchanged: "+c.call)
 }
+
+var c16Reentrant = [][2]string{
+	{"function piece(s, n) { if (n == 0) return s\nreturn s.split(piece(',', n - 1))[0] }\nBEGIN { print piece('a,b', 1), piece('c,d,e', 2) }", "a c\n"},
+	{"function pk(o, n) { if (n == 0) return 'x'\nreturn o.pluck(pk({y: 2}, n - 1)) }\nBEGIN { print pk({x: 1}, 1), pk({x: 5, y: 6}, 1) }", "{\"x\": 1} {\"x\": 5}\n"},
+	{"function up(s, n) { if (n == 0) return s.upper()\nreturn s.lower() + up('Q' + s, n - 1) + s.upper() }\nBEGIN { print up('aB', 2) }", "abqabQQABQABAB\n"},
+	{"function len(a, n) { if (n == 0) return a.length()\nreturn a.push(len([7, 8, 9], n - 1)).length() }\nBEGIN { print len([1], 1), len([], 2) }", "2 1\n"},
+	{"function r(x, n) { if (n == 0) return x.round()\nreturn x.floor() + r(x + 0.5, n - 1) + x.ceil() }\nBEGIN { print r(1.2, 2) }", "8\n"},
+	{"BEGIN { for (i = 0; i < 3; i++) { s = ['a,b', 'c', 'd,e,f'][i]; print s.split(',').length() } }", "2\n1\n3\n"},
+}
+
+// VHC16Reentrant: a method runs on the receiver it was looked up on, also when the same
+// call expression is entered again (recursion, the next iteration) while its arguments
+// are evaluated.
+func VHC16Reentrant() {
+	c := c16Reentrant[vh.Choose("case", len(c16Reentrant))]
+	out, k := runProg(c[0])
+	vh.Reach("re-entered call evaluated")
+	vh.Assert(k == OK && out == c[1], "C16: a method acts on its own receiver when the call expression is re-entered: "+lbl(c[0]))
+}
